@@ -2,13 +2,26 @@
    theorems talk about) on implementation states. *)
 open Sm
 open Codec
-let handles (cmd : string) = (cmd = "M" || cmd = "EV")
-let run (cmd : string) (i : inst) (args : sx list) : unit =
+let handles (cmd : string) = List.mem cmd ["M"; "EV"; "LB"; "RW"]
+let run (cmd : string) (io : inst option) (args : sx list) : unit =
+  let i () = match io with Some i -> i | None -> raise (Parse "no instance") in
   match cmd, args with
   | "M", [x] ->
-      let v = clause_vector i (p_state x) in
+      let v = clause_vector (i ()) (p_state x) in
       ps "("; List.iteri (fun k b -> if k > 0 then ps " "; ps (if b then "1" else "0")) v; ps ")"
   | "EV", [x; tr; x'] ->
-      let v = event_vector i (p_state x) (p_tr tr) (p_state x') in
+      let v = event_vector (i ()) (p_state x) (p_tr tr) (p_state x') in
       ps "("; List.iteri (fun k b -> if k > 0 then ps " "; ps (if b then "1" else "0")) v; ps ")"
+  | "LB", [L jobs] ->
+      let ci = List.map (p_list (function L [m; d] -> (p_nat m, p_z d) | x -> bad "cop" x)) jobs in
+      (match lower_bound ci with
+       | Some v -> ps "(lb "; pz v; ps " "; pz (total_work ci); ps ")"
+       | None -> ps "(none)")
+  | "RW", [sn; sd; dn; dd; tn; td; tmax; lb; nops; njobs; streak; time; term; trunc; noop] ->
+      let mkq n d = { qnum = p_z n; qden = pos_of_int (p_int d) } in
+      let c = { rc_sparse = mkq sn sd; rc_dense = mkq dn dd; rc_trunc = mkq tn td; rc_tmax = p_z tmax; rc_lb = p_z lb;
+                rc_nops = p_z nops; rc_njobs = p_nat njobs } in
+      (match reward c (p_nat streak) (p_z time) (p_bool term) (p_bool trunc) (p_bool noop) with
+       | Ok (qv, st) -> ps "(ok "; pz qv.qnum; ps " "; pi (int_of_pos qv.qden); ps " "; pnat st; ps ")"
+       | Err e -> ps "(raise "; perr e; ps ")")
   | _ -> ps "(error monitor-args)"
